@@ -23,7 +23,7 @@ func (f *Fifo) Fresh(n int) []byte {
 	return p
 }
 
-func (f *Fifo) Len() int         { return len(f.Data) }
+func (f *Fifo) Len() int           { return len(f.Data) }
 func (f *Fifo) PushBack(p []byte)  { f.Data = append(f.Data, p...) }
 func (f *Fifo) PushFront(p []byte) { f.Data = append(append([]byte{}, p...), f.Data...) }
 func (f *Fifo) Drop(n int) {
